@@ -245,6 +245,65 @@ pub fn step(st: &St, a: &Act, sc: &mut CaseCx) -> Option<St> {
   }
 }
 
+
+/// Evaluations must not change server state. The BFS treats them as part of the invariant, so this is
+/// checked separately for every transition: for every tag, evaluate it on a copy of the instance the
+/// action is about to change, apply the action, and evaluate the SAME tag first afterwards - the
+/// answer must be what the model says for the new state (no stale per-tag memo may survive a puncture,
+/// a clone or an import).
+pub fn interleaved_probe(st: &St, a: &Act, b: &Base, sc: &mut CaseCx) {
+  let (src, new_punct): (usize, BTreeSet<u8>) = match a {
+    Act::Puncture(i, t) => {
+      if st.inst[*i].punct.contains(t) {
+        return;
+      }
+      let mut p = st.inst[*i].punct.clone();
+      p.insert(*t);
+      (*i, p)
+    }
+    Act::Clone(i) | Act::ExportImportFresh(i) => (*i, st.inst[*i].punct.clone()),
+    Act::Sync(i, _j) => (*i, st.inst[*i].punct.clone()),
+  };
+  for (ti, &tag) in TAGS.iter().enumerate() {
+    // the instance that will carry the state after the action, warmed up with one evaluation of `tag`
+    let mut target: pp::Server = match a {
+      Act::Sync(_, j) => st.inst[*j].s.clone(),
+      Act::ExportImportFresh(_) => pp::Server::new(vec![9]).expect("server"),
+      _ => st.inst[src].s.clone(),
+    };
+    let _ = guard(|| target.eval(&b.points[0], tag, false).map(|e| *e.output.as_bytes()));
+    let applied: Result<(), String> = match a {
+      Act::Puncture(_, t) => guard(|| target.puncture(*t).map_err(|e| e.to_string())).and_then(|r| r),
+      Act::Clone(_) => {
+        target = target.clone();
+        Ok(())
+      }
+      Act::ExportImportFresh(i) | Act::Sync(i, _) => export_bytes(&st.inst[*i].s).and_then(|bytes| import_into(&mut target, &bytes)),
+    };
+    if applied.is_err() {
+      continue;
+    }
+    sc.eval();
+    let got = guard(|| target.eval(&b.points[0], tag, false).ok().map(|e| *e.output.as_bytes()));
+    let should = REGISTERED.contains(&tag) && !new_punct.contains(&tag);
+    let want = if should { b.baseline[ti][0] } else { None };
+    match got {
+      Ok(g) if g == want => sc.count("interleaved_probes", 1),
+      Ok(g) => {
+        let mut path = st.path.clone();
+        path.push(a.clone());
+        sc.viol(
+          if g.is_some() && !should { "C14/evaluation-changes-state/stale-answer" } else { "C14/evaluation-changes-state" },
+          format!("tag {} was evaluated on the instance just before {:?}; evaluated again right after, the instance {} although the model says it must {}", tag, a, if g.is_some() { "answers" } else { "refuses" }, if should { "answer with the original value" } else { "refuse" }),
+          json!({"history": path_json(&path), "evaluated_before_and_after": tag}),
+        );
+        return;
+      }
+      Err(p) => sc.viol("C14/eval-panicked", p, json!({"history": path_json(&st.path)})),
+    }
+  }
+}
+
 pub fn visit(st: &St, b: &Base, sc: &mut CaseCx) {
   getrandom::verif::reset(fnv_str(&format!("{:?}", key_of(st))));
   for (i, inst) in st.inst.iter().enumerate() {
@@ -281,6 +340,7 @@ fn run_bfs(cx: &mut CaseCx, case: &Value) {
       let mut succ = vec![];
       for a in actions(st) {
         sc.count("transitions", 1);
+        interleaved_probe(st, &a, &b, sc);
         if let Some(n) = step(st, &a, sc) {
           succ.push((key_of(&n), n));
         }
@@ -336,6 +396,7 @@ fn run_history(cx: &mut CaseCx, case: &Value) {
   visit(&st, &b, cx);
   for a in &path {
     cx.count("transitions", 1);
+    interleaved_probe(&st, a, &b, cx);
     if let Some(mut n) = step(&st, a, cx) {
       n.touched = (0..n.inst.len()).collect();
       visit(&n, &b, cx);
@@ -377,10 +438,10 @@ pub fn spec() -> PropSpec {
     checks: vec![
       Check {
         name: "histories-bfs",
-        rule: "explicit-state BFS: state = up to 3 real Server instances + model; every enabled action executed on the real objects (refused double punctures included); digest = per-instance punctured sets in instance order, merge check on observable + canonical exported key material; invariant in every state and for every instance: eval answers iff registered and unpunctured in that key's history, answers equal the original server's, public key unchanged; for the instance touched by the action: verifiable answers verify against the original public key and export-now/import-into-fresh gives an indistinguishable server that re-exports the same bytes",
+        rule: "explicit-state BFS: state = up to 3 real Server instances + model; every enabled action executed on the real objects (refused double punctures included); digest = per-instance punctured sets in instance order, merge check on observable + canonical exported key material; invariant in every state and for every instance: eval answers iff registered and unpunctured in that key's history, answers equal the original server's, public key unchanged; for the instance touched by the action: verifiable answers verify against the original public key and export-now/import-into-fresh gives an indistinguishable server that re-exports the same bytes; for EVERY transition and every tag: evaluate the tag on the instance right before the action and first thing after it (evaluations must not leave state behind)",
         gen: |tier| vec![json!({"depth": if tier.thorough() { 7 } else { 5 }})],
         run: run_bfs,
-        min_counts: &[("states", 1000), ("refused_double_punctures", 100), ("export_import_checks", 1000), ("merges", 100), ("traces_validated", 4)],
+        min_counts: &[("states", 1000), ("refused_double_punctures", 100), ("export_import_checks", 1000), ("merges", 100), ("traces_validated", 4), ("interleaved_probes", 10_000)],
       },
       Check {
         name: "stateright-crosscheck",
